@@ -152,14 +152,18 @@ structure Conn where
   pending : List (String × Addr × Addr) := []
   deriving Repr, DecidableEq
 
-/-- first message on a connection: `QMI_InitialHandshakeMessage` -/
-def Conn.handshakeIn (c : Conn) (srcCtx : String) (isServerHandshake : Bool) : Except Err Conn :=
+/-- first message on a connection: `QMI_InitialHandshakeMessage`; `srcCtx = none` stands for a context name that
+is not a string (rejected since 849271e, so that a connection can not stay "waiting for the handshake") -/
+def Conn.handshakeIn (c : Conn) (srcCtx : Option String) (isServerHandshake : Bool) : Except Err Conn :=
   match c.peerName with
   | some _ => .error (.runtime "unexpected-handshake")
   | none =>
-    if isServerHandshake && c.incoming then .error (.runtime "server-handshake-from-client")
-    else if !isServerHandshake && !c.incoming then .error (.runtime "client-handshake-as-client")
-    else .ok { c with peerName := some srcCtx }
+    match srcCtx with
+    | none => .error (.runtime "invalid-context-name")
+    | some name =>
+      if isServerHandshake && c.incoming then .error (.runtime "server-handshake-from-client")
+      else if !isServerHandshake && !c.incoming then .error (.runtime "client-handshake-as-client")
+      else .ok { c with peerName := some name }
 
 /-- `_PeerTcpConnection.send_message`, first half: destination alias → real name (on a copy) -/
 def Conn.rewriteOut (c : Conn) (m : Msg α) : Except Err (Msg α) :=
@@ -307,10 +311,11 @@ def stubFor (stubs : List (String × Stub)) (attr : String) : Option Stub :=
 inductive Mode | blocking | nonBlocking
   deriving DecidableEq, Repr
 
-/-- The positional-or-keyword parameters of the helper the stub calls as
-`helper(self._context, self._rpc_object_address, method_name, self._lock_token, *args, **kwargs)`
-in the pinned tree.  A caller keyword with one of these names collides: `TypeError: got multiple values`. -/
-def pinnedHelperParams : List String := ["context", "rpc_object_address", "method_name", "rpc_lock_token"]
+/-- HISTORICAL constant (not read from the source): the positional-or-keyword parameters that the helper called as
+`helper(self._context, self._rpc_object_address, method_name, self._lock_token, *args, **kwargs)` had up to commit
+04de7e7.  A caller keyword with one of these names collided (`TypeError: got multiple values`); since 266e9a5 the
+four parameters are positional-only and the list extracted from the source (`Gen/StubBinding.lean`) is empty. -/
+def helperParamsBeforeFix : List String := ["context", "rpc_object_address", "method_name", "rpc_lock_token"]
 
 /-- the keyword the blocking helper keeps for itself (documented proxy-level parameter) -/
 def timeoutKw : String := "rpc_timeout"
@@ -354,7 +359,8 @@ def mkReply (req : Msg V) (st : FState) (result : Option V) : Msg V :=
 inductive Decision | call | unknown | locked
   deriving DecidableEq, Repr
 
-/-- lock check + `_check_and_get_method` -/
+/-- lock check + `_check_and_get_method` (static lookup + `is_rpc_method`: the same test that builds the interface
+descriptor, hence `methods` = the interface) -/
 def decision (o : Obj V) (method : String) (token : Option Token) : Decision :=
   if o.lock = none ∨ o.lock = token then
     match o.methods method with
